@@ -331,6 +331,39 @@ impl Part for C07 {
             }
         }
         let _ = classes;
+        // the same, for contexts that have used up their sequence numbers (export stays legal there): a receiver that
+        // differs in the info string must still export different secrets after both sides reached exhaustion
+        if c.suite.aead.can_seal() {
+            let ops = suite_ops(c.suite);
+            let info2 = [&info[..], &[0u8][..]].concat();
+            let mk_s = |inf: &[u8]| {
+                let mut rng = ScriptRng::new(&k.ikm_e);
+                ops.setup_sender(&m, &k.pk_r, inf, &mut rng).ok()
+            };
+            if let (Some((_, mut s_base)), Some((enc2, mut s_help)), Obs::Ok(mut r2)) = (mk_s(&info), mk_s(&info2), ops.setup_receiver(&m, &k.sk_r, &enc, &info2)) {
+                s_base.set_seq(u64::MAX);
+                s_help.set_seq(u64::MAX);
+                r2.set_seq(u64::MAX);
+                let last = s_help.seal(b"last", b"");
+                let _ = s_base.seal(b"last", b"");
+                out.transitions += 1;
+                if enc2 == enc {
+                    if let Obs::Ok(ct) = last {
+                        if r2.open(&ct, b"").is_ok() && s_base.seq_state().1 && r2.seq_state().1 {
+                            for (ectx, l) in export_probes(cfg.seed) {
+                                out.transitions += 1;
+                                if let (Obs::Ok(a), Obs::Ok(b)) = (s_base.export(&ectx, l), r2.export(&ectx, l)) {
+                                    if a == b {
+                                        out.fail(format!("{} {:?}: after both contexts used sequence number 2^64-1, a receiver set up with info||00 exports the SAME secret as the sender (|ctx|={}, L={})", c.suite.name(), c.mode, ectx.len(), l));
+                                        break;
+                                    }
+                                }
+                            }
+                        }
+                    }
+                }
+            }
+        }
         out
     }
 }
